@@ -173,28 +173,34 @@ def job_case(case, tier, seed):
             ck.inconclusive.append('case %r slices %r: %s' % (case, comp, str(x)[:150]))
             continue
         ck.nstates += 1
-        goals, names = [], []
-        for k_ in ow:
-            a, b = ow[k_], osl[k_]
-            if (is_c(a) and is_c(b) and a == b) or (z3.is_expr(a) and z3.is_expr(b) and a.eq(b)):
-                continue
-            names.append(k_)
-            if z3.is_expr(a) and z3.is_array(a):
-                goals.append(a == b)
-            else:
-                if is_c(a) and is_c(b):
-                    goals.append(z3.BoolVal(False))
+        # two obligations per slicing: the peripheral side (timers, ICU request word - time must pass identically whatever
+        # the CPU does) and the CPU side (registers, latches, stack). The listed idle-entry latency finding concerns the CPU
+        # side only, so a peripheral deviation in the same input region is still reported.
+        for part in ('peripherals', 'cpu'):
+            goals, names = [], []
+            for k_ in ow:
+                if (k_.startswith(('timer', 'icu.'))) != (part == 'peripherals'):
                     continue
-                bits = a.size() if z3.is_expr(a) else b.size()
-                goals.append(bv(a, bits) == bv(b, bits))
-        name = 'Slicing[n=%d %s: %s]' % (n, label, '+'.join(map(str, comp)))
-        if not goals:
-            ck.identical(name, sample='Run(%d) vs Run slices %s, %s: every register, timer field, pending bit, latch and the stack are identical terms' % (n, comp, label) if case['counter'] == 2 and case['mode'] == 1 else None)
-        else:
-            v2 = dict(vars_)
-            v2.update({'counter_cell': case['counter'], 'start_cell': case['start'], 'mode': case['mode'], 'slices': len(comp)})
-            ck.prove(name, A, z3.And(*goals), vars=v2, replay=replayer(case, comp), replay_known=(case['counter'] == 1 and case['mode'] == 0 and comp == [n - 1, 1]),
-                     sample='Run(%d) vs slices %s, %s [differing: %s]' % (n, comp, label, ','.join(names[:5])))
+                a, b = ow[k_], osl[k_]
+                if (is_c(a) and is_c(b) and a == b) or (z3.is_expr(a) and z3.is_expr(b) and a.eq(b)):
+                    continue
+                names.append(k_)
+                if z3.is_expr(a) and z3.is_array(a):
+                    goals.append(a == b)
+                else:
+                    if is_c(a) and is_c(b):
+                        goals.append(z3.BoolVal(False))
+                        continue
+                    bits = a.size() if z3.is_expr(a) else b.size()
+                    goals.append(bv(a, bits) == bv(b, bits))
+            name = 'Slicing.%s[n=%d %s: %s]' % (part, n, label, '+'.join(map(str, comp)))
+            if not goals:
+                ck.identical(name, sample='Run(%d) vs Run slices %s, %s: %s are identical terms' % (n, comp, label, 'every timer field and the ICU request word' if part == 'peripherals' else 'every register, pending bit, latch and the stack') if case['counter'] == 2 and case['mode'] == 1 else None)
+            else:
+                v2 = dict(vars_)
+                v2.update({'counter_cell': case['counter'], 'start_cell': case['start'], 'mode': case['mode'], 'slices': len(comp)})
+                ck.prove(name, A, z3.And(*goals), vars=v2, replay=replayer(case, comp, part), replay_known=(case['counter'] == 1 and case['mode'] == 0 and comp == [n - 1, 1]),
+                         sample='Run(%d) vs slices %s, %s [differing: %s]' % (n, comp, label, ','.join(names[:5])))
     ck.ninstr += ex.ninstr
     return ck.export()
 
@@ -212,7 +218,7 @@ def compositions(n):
 _tw = {}
 
 
-def replayer(case, comp):
+def replayer(case, comp, part=None):
     def rp(inputs):
         import ctypes
         from engine import native
@@ -260,7 +266,8 @@ def replayer(case, comp):
             return True, {'native': 'the real library aborts (signal %d) on this input' % o[1]}
         if o[0] != 'ok':
             return None, {'native': o}
-        return o[1][0] != o[1][1], {'Run(%d)' % n: o[1][0], 'slices %r' % (comp,): o[1][1]}
+        keys = [k_ for k_ in o[1][0] if part is None or (k_.startswith(('timer', 'icu.')) == (part == 'peripherals'))]
+        return any(o[1][0][k_] != o[1][1][k_] for k_ in keys), {'Run(%d)' % n: o[1][0], 'slices %r' % (comp,): o[1][1]}
     return rp
 
 
@@ -333,7 +340,7 @@ def run(tier, seed):
         for c in range(0, nmax + 2):
             starts = range(0, nmax + 2) if mode == 1 else [nmax + 1]
             for s_ in starts:
-                for ie in ((1, 0) if (mode == 1 and c in (1, 2) and s_ in (1, nmax + 1)) else (1,)):
+                for ie in ((1, 0) if (mode in (1, 2) and c <= 3 and s_ in (1, 2, nmax + 1)) else (1,)):
                     cases.append({'n': n, 'nmax': nmax, 'mode': mode, 'counter': c, 'start': s_, 'ie': ie})
     jobs = [(job_coretiming, (tier, seed))] + [(job_case, (c, tier, seed)) for c in cases]
     for r in core.pmap(_dispatch, jobs):
